@@ -277,30 +277,36 @@ def run_ext(ctx, real, B, H, nt, limited):
                    | {0x10000, 0x1D7CD, 0x1D7CE, 0x1D7FF, 0x1D800, 0x10FFFF})
     chars = [chr(c) for c in BMP + extra]
     shr_int = H.make_str_shrinker(ctx, "int", real.int)
-    for tmpl in ("{}", "{}7", "7{}", "1{}2", "0x{}", "{}1{}"):
+    n_tmpl = 0
+    for tmpl in ("{}", "{}7", "7{}", "1{}2", "0x{}", "{}1{}")[: ctx.pick(4, 6)]:
+        n_tmpl += 1
         for c in chars:
             s = tmpl.format(c, c)
             B.add(f"int {hs(s)}", real.int(s), "auto_int", s, shrink=shr_int, site="utils.auto_int")
         ctx.ev(len(chars))
     shr_u1 = H.make_str_shrinker(ctx, "unravel", real.unravel1)
-    for tmpl in ("{}", "{}{}", "1{}", "{}1,2", "1,{}2-3", "1{}-2"):
+    for tmpl in ("{}", "1{}", "1,{}2-3", "1{}-2", "{}{}", "{}1,2")[: ctx.pick(4, 6)]:
+        n_tmpl += 1
         for c in chars:
             s = tmpl.format(c, c)
             B.add(f"unravel {hs(s)}", real.unravel1(s), "unravel", s, shrink=shr_u1, site="utils.unravel")
         ctx.ev(len(chars))
     shr_pr = H.make_str_shrinker(ctx, "pranges", real.pranges)
-    for tmpl in ("1{}2", "{}1-2{}", "{}"):
+    for tmpl in ("1{}2", "{}1-2{}", "{}")[: ctx.pick(2, 3)]:
+        n_tmpl += 1
         for c in chars:
             s = tmpl.format(c, c)
             B.add(f"pranges {hs(s)}", real.pranges(s), "_process_ranges", s, shrink=shr_pr, site="command.config._process_ranges")
         ctx.ev(len(chars))
     shr_u2 = H.make_str_shrinker(ctx, "unravel2d", real.unravel2)
-    for tmpl in ("1:2{}3", "1{}2:3", "{}1:2", "1:{}"):
+    for tmpl in ("1:2{}3", "1{}2:3", "{}1:2", "1:{}")[: ctx.pick(3, 4)]:
+        n_tmpl += 1
         for c in chars:
             s = tmpl.format(c)
             B.add(f"unravel2d {hs(s)}", real.unravel2(s), "unravel_2d", s, shrink=shr_u2, site="utils.unravel_2d")
         ctx.ev(len(chars))
-    for tmpl in ("{}7", "7{}", "{}"):
+    for tmpl in ("{}7", "7{}", "{}")[: ctx.pick(2, 3)]:
+        n_tmpl += 1
         for c in chars:
             s = tmpl.format(c)
             B.add(f"laxint {hs(s)}", rx.lax(s), "pydantic-int", s, site="pydantic int field")
@@ -314,11 +320,11 @@ def run_ext(ctx, real, B, H, nt, limited):
             ctx.disagree(f"unicode-table:U+{ord(c):04X}", f"U+{ord(c):04X}: isspace / skipped by int() / decimal value = {exp}, oracle table {t}",
                          {"fn": "chars", "input": ord(c)}, impl=exp, model=t, spec_violated=True, site="unicodedata")
     ctx.ev(len(chars))
-    ctx.dist["unicode:single-character-sweep"] += 23 * len(chars)
+    ctx.dist["unicode:single-character-sweep"] += (n_tmpl + 1) * len(chars)
     ctx.distinct.add(hash(("uni-exh", len(chars))))
     ctx.exhaustive_parts.append(f"every BMP code point (and every astral space / decimal digit, {len(chars)} in all) in digit, inner and "
-                                "white-space position of auto_int (6 templates), unravel (6), _process_ranges (3), unravel_2d (4), a pydantic int "
-                                "field (3), and the isspace / int-skip / decimal tables")
+                                f"white-space position of auto_int ({ctx.pick(4, 6)} templates), unravel ({ctx.pick(4, 6)}), _process_ranges ({ctx.pick(2, 3)}), "
+                                f"unravel_2d ({ctx.pick(3, 4)}), a pydantic int field ({ctx.pick(2, 3)}), and the isspace / int-skip / decimal tables")
     B.flush()
     # digits of other scripts, spaces of other kinds inside the theorem's own spellings
     zeros = [ord(c) for c in chars if unicodedata.decimal(c, None) == 0]
@@ -346,8 +352,9 @@ def run_ext(ctx, real, B, H, nt, limited):
     key_st = st.text(max_size=6)
     val_st = st.one_of(st.text(max_size=8), st.integers(-5, 70000).map(str), st.sampled_from(["", " ", "+", "%", "&", "=", "#", "?", "a=b&c", "é", "%41", "0x1f", "😀"]))
     maps = hyp_collect(ctx, st.dictionaries(key_st, val_st, max_size=4), ctx.pick(2500, 25000), 3)
-    maps += [{"a": c} for c in chars[:: ctx.pick(1, 1)]]
-    n_sweep = len(chars)
+    sweep = [c for i, c in enumerate(chars) if ord(c) < 0x800 or ord(c) >= 0x10000 or i % ctx.pick(8, 1) == 0]
+    maps += [{"a": c} for c in sweep]
+    n_sweep = len(sweep)
     lines = [f"fromparts {hs('tcp')} {hs('h')} none {H.show_args(a)}" for a in maps]
     model_uris = ctx.lean(lines)
     model_parsed = ctx.lean([f"parse {m}" for m in model_uris])
